@@ -420,3 +420,60 @@ def tables_canon(results: Optional[List[Any]]) -> Any:
         cols = F.to_columns(r)
         out.append(sorted((c, v) for c, v in cols.items()))
     return sorted(out, key=lambda x: json.dumps(x, default=str))
+
+
+# ------------------------------------------------------------------------------------------------
+# requests with links (joins): sources with an index column each, one consumer of value columns of all sources
+
+
+def gen_link_spec(rng: Any, frameworks: Sequence[str] = ("pa", "pd", "py"), nsrc: Optional[int] = None, jointypes: Sequence[str] = ("inner", "left", "outer", "right")) -> Dict[str, Any]:
+    uid = F.uniq("")
+    n = nsrc or rng.choice([2, 2, 2, 3])
+    same_fw = rng.random() < 0.5
+    fw0 = rng.choice(list(frameworks))
+    srcs = []
+    for i in range(n):
+        nrows = rng.randint(1, 4)
+        keys = [rng.choice([1, 2, 3, 4]) for _ in range(nrows)]
+        if rng.random() < 0.6:
+            keys = sorted(set(keys))  # unique keys most of the time
+        kname = f"k{uid}" if rng.random() < 0.5 else f"k{uid}_{i}"
+        srcs.append({"name": f"S{uid}_{i}", "fw": fw0 if same_fw else rng.choice(list(frameworks)), "key": kname,
+                     "cols": {kname: keys, f"v{uid}_{i}": [rng.randint(0, 9) * (10 ** i) for _ in keys]}})  # fmt: skip
+    links = []
+    shape = rng.choice(["chain", "star"]) if n == 3 else "pair"
+    pairs = [(0, 1)] if n == 2 else ([(0, 1), (1, 2)] if shape == "chain" else [(0, 1), (0, 2)])
+    for a, b in pairs:
+        if rng.random() < 0.3:
+            a, b = b, a
+        links.append({"type": rng.choice(list(jointypes)), "left": a, "right": b})
+    consumer = {"name": f"Z{uid}", "fw": fw0 if same_fw else rng.choice(list(frameworks)), "feature": f"z{uid}",
+                "parents": [f"v{uid}_{i}" for i in range(n)]}  # fmt: skip
+    return {"sources": srcs, "links": links, "consumer": consumer}
+
+
+def build_link_request(spec: Dict[str, Any], hooks: Optional[Dict[str, Any]] = None, extra_fn: Any = None) -> Tuple[Dict[str, Any], Set[Any], List[Any], Set[Any]]:
+    from mloda.core.abstract_plugins.components.link import Link, JoinSpec
+    from mloda.core.abstract_plugins.components.index.index import Index
+
+    classes: Dict[str, Any] = {}
+    for s in spec["sources"]:
+        classes[s["name"]] = F.make_group(s["name"], root_data=s["cols"], index_columns=[(s["key"],)], frameworks={F.FW_SHORT[s["fw"]]}, hooks=hooks,
+                                          extra=extra_fn(s["name"]) if extra_fn else None)
+    c = spec["consumer"]
+    expr: Any = ["col", c["parents"][0]]
+    for q in c["parents"][1:]:
+        expr = ["add", expr, ["col", q]]
+    classes[c["name"]] = F.make_group(c["name"], derived={c["feature"]: {"parents": c["parents"], "expr": expr}}, frameworks={F.FW_SHORT[c["fw"]]}, hooks=hooks,
+                                      extra=extra_fn(c["name"]) if extra_fn else None)
+    links = set()
+    for l in spec["links"]:
+        a, b = spec["sources"][l["left"]], spec["sources"][l["right"]]
+        links.add(getattr(Link, l["type"])(JoinSpec(classes[a["name"]], Index((a["key"],))), JoinSpec(classes[b["name"]], Index((b["key"],)))))
+    fws = {F.FW_SHORT[s["fw"]] for s in spec["sources"]} | {F.FW_SHORT[c["fw"]]}
+    return classes, links, [c["feature"]], fws
+
+
+def prepare_link(spec: Dict[str, Any], hooks: Optional[Dict[str, Any]] = None, extra_fn: Any = None) -> Any:
+    classes, links, feats, fws = build_link_request(spec, hooks, extra_fn)
+    return mloda.prepare(list(feats), compute_frameworks=fws, links=links, plugin_collector=F.collector(set(classes.values())))
